@@ -98,7 +98,10 @@ def bound_dicts(rng, cfg, scale):
     """full lower/upper dictionaries with a distinct positive value per key"""
     out = {}
     for blk in ("cosmo", "lens", "kin", "source"):
-        out[blk] = {key: scale * rng.uniform(0.1, 5.0) for key in ALLKEYS[blk]}
+        # the order in which the caller happens to write the keys of a bound dictionary must not matter
+        keys = list(ALLKEYS[blk])
+        rng.shuffle(keys)
+        out[blk] = {key: scale * rng.uniform(0.1, 5.0) for key in keys}
     out["lens"]["gamma_pl_list"] = [scale * rng.uniform(1.5, 2.5) for _ in range(cfg["gamma_pl_num"])]
     npop = len(cfg["los_distributions"] or [])
     out["los"] = [{key: scale * rng.uniform(0.01, 1.0) for key in ("mean", "sigma", "xi")} for _ in range(npop)]
@@ -177,6 +180,12 @@ def impl_eval(cfg, bounds, args):
             r["back"] = [float(x) for x in pm.kwargs2args(*kw)]
         except Exception as e:  # noqa
             r["back"] = {"err": err_enum(e)}
+        try:
+            # the same dictionaries with their keys written in reversed order: dictionaries are addressed by name
+            rev = [dict(reversed(list(d.items()))) for d in kw[:4]] + [[dict(reversed(list(d.items()))) for d in (kw[4] or [])]]
+            r["back_rev"] = [float(x) for x in pm.kwargs2args(*rev)]
+        except Exception as e:  # noqa
+            r["back_rev"] = {"err": err_enum(e)}
     except Exception as e:  # noqa
         r["dicts"] = {"err": err_enum(e)}
     try:
@@ -208,6 +217,10 @@ def oracle(cfg, bounds, args, r):
         return fails
     if len(r["back"]) != n or not all(close(a, b, 1e-12) for a, b in zip(r["back"], args)):
         fails.append("round trip: %r -> %r" % (list(args), r["back"]))
+        return fails
+    br = r.get("back_rev")
+    if br is not None and (isinstance(br, dict) or len(br) != n or not all(close(a, b, 1e-12) for a, b in zip(br, args))):
+        fails.append("round trip through dictionaries whose keys are written in another order: %r -> %r" % (list(args), br))
         return fails
     pm = r["pm"]
     base = [canon(d) for d in r["dicts"]]
